@@ -131,9 +131,18 @@ func runC13(c *Ctx) {
 		c.Check("NOBLOCK", "no-blocking-under-lock", "-", true, fmt.Sprintf("%d channel operations, none executed with a lock held", n))
 	}
 
-	// RELEASE: every function that locks a class releases it on all paths to exit (no lock leaks out of a function)
+	ruleLockRelease(c, "RELEASE", nil, 15)
+}
+
+// ruleLockRelease: every function (accepted by only, nil = all) that locks a class releases it on all paths to exit
+// (no lock leaks out of a function).
+func ruleLockRelease(c *Ctx, rule string, only func(*ssa.Function) bool, floor int) {
+	l := c.L()
 	lockFns := 0
 	for _, f := range c.P.Fns {
+		if only != nil && !only(f) {
+			continue
+		}
 		locks := false
 		for _, cl := range callsOf(f) {
 			if op := l.AsLockOp(cl.Common()); op != nil && (op.Kind == "Lock" || op.Kind == "RLock") {
@@ -155,10 +164,10 @@ func runC13(c *Ctx) {
 				}
 			}
 			sort.Strings(leaked)
-			c.CheckAt("RELEASE", fmt.Sprintf("%s:return#%d", short(f), ri), r, len(leaked) == 0, fmt.Sprintf("locks still held at return: %v", leaked))
+			c.CheckAt(rule, fmt.Sprintf("%s:return#%d", short(f), ri), r, len(leaked) == 0, fmt.Sprintf("locks still held at return: %v", leaked))
 		}
 	}
-	c.Floor("RELEASE", "functions that take a lock", lockFns, 15)
+	c.Floor(rule, "functions that take a lock", lockFns, floor)
 }
 
 func firstSite(order map[[2]string][]eOW, cyc []string) ssa.Instruction {
